@@ -37,18 +37,25 @@ Definition run_table (c : Z * Z * Z * Z) : V :=
 (* ---- suite "hist": histories over up to two PeerConnections ----
    op = (kind, pc, type, ref, mut):
      kind 0 CreateOffer, 1 CreateAnswer, 2 SetLocalDescription,
-          3 SetRemoteDescription, 4 Close
+          3 SetRemoteDescription, 4 Close,
+          5 declaration (no call): PeerConnection pc was built with a trait,
+            mut 1 = an inconsistent SettingEngine, its ICE agent cannot be
+            created; mut 2 = its bound track refuses Unbind, so stopping its
+            sender (an inactive remote section) fails; holds for the whole history
      ref  = index (in this history) of the create call whose result is used as
             the description's SDP text, -1 = empty text; a create call that
             failed yields the empty text
      mut  = mutation applied to that text (0 none); on a create call: 1 + the
             index of the PeerConnection whose senders cannot start under the
             text produced (0 = none)
-     type = SDPType put on the description
+     type = SDPType put on the description; on a create call: 1 = the call
+            was refused for a reason inside SDP generation (outside the model),
+            0 otherwise
    text identity: 16 * (ref + 1) + mut. *)
 Definition mk_flags (p c m cd u pw f f2 : bool) : dflags :=
   {| parses := p; codecs_ok := c; all_mid := m; cands_ok := cd; has_ufrag := u;
-     has_pwd := pw; has_fp := f; fp_two := f2; send_ok := true; has_media := true |}.
+     has_pwd := pw; has_fp := f; fp_two := f2; send_ok := true; has_media := true;
+     addcand_ok := true; gather_ok := true; stop_ok := true |}.
 Definition flags_of_mut (m : Z) : dflags :=
   match m with
   | 1 => mk_flags false true true true true true true true    (* garbage *)
@@ -58,12 +65,15 @@ Definition flags_of_mut (m : Z) : dflags :=
   | 5 => mk_flags true true true true true true false true    (* no fingerprint *)
   | 6 => mk_flags true true true true true true true false    (* three-token fingerprint *)
   | 7 => mk_flags true true true false true true true true    (* one unparsable candidate *)
+  | 8 => mk_flags true false true true true true true true    (* an audio section with unreadable formats / extmap *)
+  (* 9: one valid candidate line; 10: every direction attribute replaced by a=inactive *)
   | _ => good_flags
   end.
 
 Definition hop := (Z * Z * Z * Z * Z)%type.
 
 Record hstate := {
+  traits : list (Z * Z);          (* (pc, trait) declarations of the whole history *)
   pcs : list neg;                 (* one per PeerConnection *)
   created : list (Z * option (dflags * Z)); (* op index of each create call; if it succeeded,
                                      flags of its text and the no-send marker *)
@@ -76,17 +86,33 @@ Fixpoint lookup_created (l : list (Z * option (dflags * Z))) (i : Z) : option (d
   | (j, ok) :: t => if Z.eqb i j then ok else lookup_created t i
   end.
 
+Definition has_trait (h : hstate) (pc t : Z) : bool :=
+  existsb (fun d => Z.eqb (fst d) pc && Z.eqb (snd d) t) (traits h).
+
+Definition with_stop_ok (f : dflags) (b : bool) : dflags :=
+  {| parses := parses f; codecs_ok := codecs_ok f; all_mid := all_mid f; cands_ok := cands_ok f;
+     has_ufrag := has_ufrag f; has_pwd := has_pwd f; has_fp := has_fp f; fp_two := fp_two f;
+     send_ok := send_ok f; has_media := has_media f;
+     addcand_ok := addcand_ok f; gather_ok := gather_ok f; stop_ok := b |}.
+
 Definition txt_of (h : hstate) (pc ref mut : Z) : txt :=
-  if Z.ltb ref 0 then empty_txt
-  else match lookup_created (created h) ref with
-       | Some (fl0, nosend) =>
-           let fl := with_send_ok fl0 (negb (Z.eqb nosend (pc + 1))) in
-           (* texts without media sections are handed over unmutated *)
-           if Z.eqb mut 0 || negb (has_media fl)
-           then {| t_id := Z.to_N (16 * (ref + 1)); t_fl := fl |}
-           else {| t_id := Z.to_N (16 * (ref + 1) + mut); t_fl := flags_of_mut mut |}
-       | None => empty_txt
-       end.
+  let t :=
+    if Z.ltb ref 0 then empty_txt
+    else match lookup_created (created h) ref with
+         | Some (fl0, nosend) =>
+             let fl := with_send_ok fl0 (negb (Z.eqb nosend (pc + 1))) in
+             (* texts without media sections are handed over unmutated *)
+             if Z.eqb mut 0 || negb (has_media fl)
+             then {| t_id := Z.to_N (16 * (ref + 1)); t_fl := fl |}
+             else {| t_id := Z.to_N (16 * (ref + 1) + mut); t_fl := flags_of_mut mut |}
+         | None => empty_txt
+         end in
+  (* facts about the receiving connection *)
+  let mutated := negb (N.eqb (N.modulo (t_id t) 16) 0) in
+  let f1 := if has_trait h pc 1
+            then with_no_agent (t_fl t) (mutated && Z.eqb mut 9) else t_fl t in
+  let f2 := if has_trait h pc 2 && mutated && Z.eqb mut 10 then with_stop_ok f1 false else f1 in
+  {| t_id := t_id t; t_fl := f2 |}.
 
 Definition Vdesc (d : option desc) : V :=
   match d with
@@ -121,11 +147,12 @@ Definition hstep (r : repair) (h : hstate) (io : Z * hop) : hstate :=
           let d := {| d_ty := sdptype_of_Z ty; d_txt := txt_of h pc ref mut |} in
           let res : neg * result unit :=
             match kind with
-            | 0 => step_r r n (OCreateOffer fresh)
-            | 1 => step_r r n (OCreateAnswer fresh (negb (Z.eqb mut (pc + 1))))
+            | 0 => step_r r n (OCreateOffer fresh (negb (Z.eqb ty 1)))
+            | 1 => step_r r n (OCreateAnswer fresh (negb (Z.eqb mut (pc + 1))) (negb (Z.eqb ty 1)))
             | 2 => step_r r n (OSetLocal d)
             | 3 => step_r r n (OSetRemote d)
-            | _ => step_r r n OClose
+            | 4 => step_r r n OClose
+            | _ => (n, Ok tt)        (* declaration: no call *)
             end in
           let made : option (dflags * Z) :=
             match snd res, kind with
@@ -133,7 +160,8 @@ Definition hstep (r : repair) (h : hstate) (io : Z * hop) : hstate :=
             | Ok _, _ => Some (t_fl (lastAnswer (fst res)), mut)
             | _, _ => None
             end in
-          {| pcs := set_nth (pcs h) k (fst res);
+          {| traits := traits h;
+             pcs := set_nth (pcs h) k (fst res);
              created := if Z.leb kind 1 then (i, made) :: created h else created h;
              obs := Vneg (err_str (snd res)) (fst res) :: obs h |}
       end
@@ -144,7 +172,9 @@ Fixpoint number {A} (i : Z) (l : list A) : list (Z * A) :=
 
 Definition run_hist_r (r : repair) (ops : list hop) : V :=
   let h := fold_left (hstep r) (number 0 ops)
-                     {| pcs := [neg0; neg0]; created := []; obs := [] |} in
+                     {| traits := map (fun o => match o with (_, pc, _, _, mut) => (pc, mut) end)
+                                      (filter (fun o => match o with (kind, _, _, _, _) => Z.eqb kind 5 end) ops);
+                        pcs := [neg0; neg0]; created := []; obs := [] |} in
   VL [VL (rev (obs h));
       VL (map (fun n => VL (map (fun s => VZ (sstate_to_Z s)) (events n))) (pcs h))].
 
